@@ -157,6 +157,25 @@ def field_scale(spec):
     return 1.0
 
 
+def natural_scale(spec, body, d_rel, field="B"):
+    """Upper bound for the magnitude of the field of this source at distance d_rel*L from it: the size of the
+    individual contributions (faces, segments) that the closed form adds up.  Where the field is much smaller than this
+    (points of symmetry, cancelling wires) the value is a difference of large terms and its absolute error is set by
+    this magnitude, not by the value."""
+    mu0 = magpy.mu_0
+    d = max(float(d_rel), 1e-3)
+    cls = spec["cls"]
+    if "polarization" in spec:
+        b = float(np.linalg.norm(spec["polarization"])) * min(1.0, d**-3)
+    elif cls in ("Circle", "Polyline"):
+        b = mu0 * abs(float(spec["current"])) / body.L * (min(1e3, 1.0 / d) if d < 1 else d**-2)
+    elif cls == "Dipole":
+        b = mu0 * float(np.linalg.norm(spec["moment"])) / (4 * np.pi * (d * body.L) ** 3)
+    else:
+        return 0.0
+    return b if field in "BJ" else b / mu0
+
+
 # -------------------------------------------------------------------------------- snapshots
 
 
